@@ -23,18 +23,21 @@ Full statement / proved / missing
   only a Struct can use the rule).  The fragment covers Any, Undef, Default, Scalar, ScalarData, Numeric,
   Integer, Float, Boolean, Timespan, String (all three forms), Enum, Pattern, Regexp, Binary, Collection, Array, Hash, Tuple, Struct,
   Variant, Optional, NotUndef, Sensitive, Object, the built-in recursive aliases Data and RichData (as receivers and on the right-hand
-  side, through the specialised `asgToArr` / `asgToHash` members), arbitrarily nested, and `Type[T]` for `T` in
-  the proved fragment of transitivity (`Ty.TF`, see C03: soundness for `Type[..]` IS transitivity `X ⊒ Y ⊒ u`, and is obtained from
-  `C03_trans_partial`); types used as values are then well-formed members of `Ty.TF`, and container lengths fit an int64 as Go's do
-  (`Val.TyOK`).
-* `C01_sound_type_receiver` — PROVED (corollary of C03 stage 4, `C03_trans_alias_partial`): soundness of the receiver `Type[x]` for every
-  `x` of `Ty.TA` — Struct (rule off), Iterable, Data / RichData inside `x` — against every right-hand type of that fragment.
+  side, through the specialised `asgToArr` / `asgToHash` members), arbitrarily nested, and `Type[T]` AT ANY NESTING for every `T` of
+  the model except Unit — `T ∈ Ty.TA sfh`: Struct (rule off), Iterable, Data / RichData, Tuples (type list of int64 length, as every Go
+  slice) inside `T` — because soundness for `Type[..]` IS transitivity `X ⊒ Y ⊒ u` and C03 stage 4 (`C03_trans_alias_partial`, `transD`)
+  proves transitivity on all of `Ty.TA`; types used as values are then well-formed members of `Ty.TA sfh`, and container lengths fit
+  an int64 as Go's do (`Val.TyOKS`).  (Until the extension round the content of a nested `Type[T]` had to lie in the stage-2 fragment
+  `Ty.TF` — no Struct, Iterable, alias inside; `Ty.TA` contains `Ty.TF` except for a Tuple TYPE with more than MaxInt64 declared types,
+  which no Go slice can hold.)
+* `C01_sound_type_receiver` — PROVED (corollary of C03 stage 4): soundness of the receiver `Type[x]` for every `x` of `Ty.TA` against every
+  right-hand type of `Ty.TA` (Iterable allowed on the RIGHT too, which `Ty.Frag` excludes).
 * missing, and why:
-  - `Type[T]` with Struct / Iterable / Data inside `T` NESTED inside another receiver (Array[Type[Struct…]] …): `Ty.Frag` of the main
-    induction still asks `T ∈ Ty.TF`; at the top (`Type[x]` itself the receiver) it is `C01_sound_type_receiver`.  `Iterable`'s instance rule asks an assignability
+  - `Iterable` as a receiver or on the right of another receiver: its instance rule asks an assignability
     question about an INFERRED type and is genuinely unsound in the code: witnesses
     `C01_full_fails_iterable_elem` (inferred element type wider than any Variant member; known finding C01-iterable-inferred-elem)
     and `C01_full_fails_iterable_binary` (Iterable accepts Binary, whose values are not Iterable instances; C01-iterable-binary).
+  - Unit inside the content of a `Type[T]` or inside a type VALUE (Unit is the stated exclusion; transitivity is false through it).
   - the exempt rule: `C01_sfh_witness` shows it is genuinely unsound when switched on (this is the stated exclusion, not a finding).
     With the rule on `C01_sound_rule_on` excludes every pair that contains a Struct anywhere; the finer statement is
     `C01_unsound_only_by_rule` — PROVED: for types without `Type[..]` / `Iterable[..]` (Structs included) the instance relation does
@@ -56,13 +59,13 @@ def C01_full : Prop :=
 
 /-- proved part: the same statement on the fragment `Ty.Frag` -/
 theorem C01_sound_partial (cfg : Cfg) (sfh : Bool) (hl : LowerLen cfg) (a b : Ty) (v : Val)
-    (fa : a.Frag sfh) (fb : b.Frag sfh) (wa : Ty.WF cfg a) (wb : Ty.WF cfg b) (us : b.US) (ok : v.OK) (tv : Val.TyOK cfg v)
+    (fa : a.Frag sfh) (fb : b.Frag sfh) (wa : Ty.WF cfg a) (wb : Ty.WF cfg b) (us : b.US) (ok : v.OK) (tv : Val.TyOKS cfg sfh v)
     (h : asg cfg sfh a b = true) (hi : inst cfg sfh b v = true) : inst cfg sfh a v = true :=
   sound_all cfg sfh hl (a.w + b.w) a b v (Nat.le_refl _) ⟨fa, fb, wa, wb, us, ok, tv⟩ h hi
 
 /-- the code as it is (rule ON), for every pair without a Struct: instance of the theorem at `sfh = true` -/
 theorem C01_sound_rule_on (cfg : Cfg) (hl : LowerLen cfg) (a b : Ty) (v : Val)
-    (fa : a.Frag true) (fb : b.Frag true) (wa : Ty.WF cfg a) (wb : Ty.WF cfg b) (us : b.US) (ok : v.OK) (tv : Val.TyOK cfg v)
+    (fa : a.Frag true) (fb : b.Frag true) (wa : Ty.WF cfg a) (wb : Ty.WF cfg b) (us : b.US) (ok : v.OK) (tv : Val.TyOKS cfg true v)
     (h : asg cfg true a b = true) (hi : inst cfg true b v = true) : inst cfg true a v = true :=
   C01_sound_partial cfg true hl a b v fa fb wa wb us ok tv h hi
 
@@ -77,20 +80,42 @@ def exB : Ty := .tuple [.int ⟨1, 2⟩, .strVal "a", .typ .numeric] none
 def exV : Val := .array [.int 2, .str "a", .typ (.int ⟨0, 5⟩)]
 
 example (cfg : Cfg) : exA.Frag true ∧ exB.Frag true ∧ Ty.WF cfg exA ∧ Ty.WF cfg exB ∧ exB.US := by
-  refine ⟨?_, ?_, ?_, ?_, ?_⟩ <;> simp [exA, exB, Ty.Frag, Ty.TF, Ty.WF, Ty.US]
+  refine ⟨?_, ?_, ?_, ?_, ?_⟩ <;> simp [exA, exB, Ty.Frag, Ty.TA, Ty.WF, Ty.US]
 example : exV.OK := Val.OK.array _ (by intro x hx; simp at hx; rcases hx with rfl | rfl | rfl <;> constructor)
-example (cfg : Cfg) : Val.TyOK cfg exV := by
+example (cfg : Cfg) : Val.TyOKS cfg true exV := by
   unfold exV
-  exact Val.TyOK.array _ (by simp [exV, I64.max]) (by
+  exact Val.TyOKS.array _ (by simp [exV, I64.max]) (by
     intro x hx; simp [exV] at hx
     rcases hx with rfl | rfl | rfl
     · constructor
     · constructor
-    · exact Val.TyOK.typ _ (by simp [Ty.TF]) (by simp [Ty.WF]))
+    · exact Val.TyOKS.typ _ (by simp [Ty.TA]) (by simp [Ty.WF]))
 example (cfg : Cfg) : asg cfg true exA exB = true := by
   simp [exA, exB, asg, asgRecv, asgAllR, asgAnyL, tupZip, sameNullary, Rng.sub, tupleSize, Rng.exact, isStringFamily]
 example (cfg : Cfg) : inst cfg true exB exV = true := by
   simp [exB, exV, inst, instZip, tupleSize, Rng.exact, Rng.contains, asg, asgRecv, sameNullary]
+
+/-! non-vacuity of the lifted `Type[T]` clause (rule off): `Type[Struct[{a => Data}]]` and `Type[Iterable[..]]` NESTED inside an Array
+    receiver, against a Tuple of `Type[Struct[..]]` / `Type[Array[..]]`, and a value holding the type values `Struct[{a => Integer[0,9]}]`
+    and `Array[String, 1, 2]` -/
+def exA2 : Ty := .array (.variant [.typ (.struct [("a", false, .data)]), .typ (.iterable .scalar)]) ⟨0, 5⟩
+def exB2 : Ty := .tuple [.typ (.struct [("a", false, .int Rng.all)]), .typ (.array .str Rng.pos)] none
+def exV2 : Val := .array [.typ (.struct [("a", false, .int ⟨0, 9⟩)]), .typ (.array .str ⟨1, 2⟩)]
+example (cfg : Cfg) : exA2.Frag false ∧ exB2.Frag false ∧ Ty.WF cfg exA2 ∧ Ty.WF cfg exB2 ∧ exB2.US := by
+  refine ⟨?_, ?_, ?_, ?_, ?_⟩ <;> simp [exA2, exB2, Ty.Frag, Ty.TA, Ty.WF, Ty.US]
+example (cfg : Cfg) : Val.TyOKS cfg false exV2 := by
+  unfold exV2
+  exact Val.TyOKS.array _ (by simp [I64.max]) (by
+    intro x hx; simp at hx
+    rcases hx with rfl | rfl
+    · exact Val.TyOKS.typ _ (by simp [Ty.TA]) (by simp [Ty.WF])
+    · exact Val.TyOKS.typ _ (by simp [Ty.TA]) (by simp [Ty.WF]))
+example (cfg : Cfg) : asg cfg false exA2 exB2 = true := by
+  simp [exA2, exB2, asg, asgRecv, asgAllR, asgAnyL, tupZip, sameNullary, Rng.sub, tupleSize, Rng.exact, isStringFamily, structAll,
+    structMember, distinctCount, floatAll, Rng.pos, Rng.all, I64.max, I64.min]
+example (cfg : Cfg) : inst cfg false exB2 exV2 = true := by
+  simp [exB2, exV2, inst, instZip, tupleSize, Rng.exact, Rng.contains, asg, asgRecv, sameNullary, structAll, structMember,
+    distinctCount, Rng.sub, Rng.all, Rng.pos, I64.max, I64.min, isStringFamily]
 
 /-- non-vacuity with the recursive alias: `Data ⊒ Hash[String, Array[Integer]]` and a conforming value -/
 example (cfg : Cfg) :
@@ -141,7 +166,7 @@ theorem C01_sfh_witness :
     relation with the exempt rule switched OFF does not accept `b`; i.e. every unsound acceptance of the code is one that only the
     Struct-from-Hash rule grants (the two relations differ in that one arm of `StructType.IsAssignable` only). -/
 theorem C01_unsound_only_by_rule (cfg : Cfg) (hl : LowerLen cfg) (a b : Ty) (v : Val)
-    (pa : a.Plain) (pb : b.Plain) (wa : Ty.WF cfg a) (wb : Ty.WF cfg b) (us : b.US) (ok : v.OK) (tv : Val.TyOK cfg v)
+    (pa : a.Plain) (pb : b.Plain) (wa : Ty.WF cfg a) (wb : Ty.WF cfg b) (us : b.US) (ok : v.OK) (tv : Val.TyOKS cfg false v)
     (hi : inst cfg true b v = true) (hn : inst cfg true a v = false) : asg cfg false a b = false := by
   cases h : asg cfg false a b with
   | false => rfl
@@ -166,7 +191,8 @@ example : (Ty.struct [("a", false, .int Rng.all)]).Plain ∧ (Ty.hash .str (.int
 /-- Soundness of the receiver `Type[x]` for EVERY `x` of the stage-4 fragment of transitivity `Ty.TA` (all types but Unit; Struct with the
     rule off): whatever `Type[x]` accepts — after the right-hand decomposition a `Type[y]` with `x ⊒ y`, under Variant / NotUndef —
     has only instances of `Type[x]`.  The right-hand type `b` ranges over the whole fragment; type values `u` inside `v` lie in the
-    fragment and are well-formed.  (`C01_sound_partial` has `Type[T]` only for `T` in `Ty.TF`: no Struct, Iterable, alias inside.) -/
+    fragment and are well-formed.  (Since the extension round `C01_sound_partial` covers the same `Type[T]`, nested anywhere; here the
+    right-hand type may in addition hold Iterable.) -/
 theorem C01_sound_type_receiver (cfg : Cfg) (sfh : Bool) (hl : LowerLen cfg) (x b : Ty) (v : Val)
     (fx : x.TA sfh) (fb : b.TA sfh) (wx : Ty.WF cfg x) (wb : Ty.WF cfg b) (tv : ∀ u, v = .typ u → u.TA sfh ∧ Ty.WF cfg u)
     (h : asg cfg sfh (.typ x) b = true) (hi : inst cfg sfh b v = true) : inst cfg sfh (.typ x) v = true :=
